@@ -1885,10 +1885,10 @@ fn tm_corpus() -> Vec<tmw::Case> {
     b.push(tmw::Op::Migrate { who: tmw::CREATOR, stored: Some(("crates.io:sg-minter".to_string(), "99.0.0".to_string())) });
     b.shuffle(2);
     b.push(tmw::Op::Migrate { who: tmw::CREATOR, stored: older() });
-    b.push(tmw::Op::SudoParams { max_limit: Some(2), airdrop_price: Some(5), shuffle_fee: Some(600), add_code_id: Some(9), offset: None });
+    b.push(tmw::Op::SudoParams { max_limit: Some(2), airdrop_price: Some(5), shuffle_fee: Some(600), add_code_id: Some(9), offset: None, frozen: Some(true), code_id: None, rm_code_id: None, creation_fee: None, max_token_limit: Some(1), airdrop_fee_bps: None });
     b.mint_to(2);
     b.push(tmw::Op::MintTo { caller: tmw::CREATOR, recip: tmw::Recip::Addr(2), funds: vec![(0, 5)] });
-    b.push(tmw::Op::SudoParams { max_limit: None, airdrop_price: Some(0), shuffle_fee: Some(500), add_code_id: None, offset: None });
+    b.push(tmw::Op::SudoParams { max_limit: None, airdrop_price: Some(0), shuffle_fee: Some(500), add_code_id: None, offset: None, frozen: None, code_id: None, rm_code_id: None, creation_fee: None, max_token_limit: None, airdrop_fee_bps: None });
     b.merge(3, tmw::Recip::None);
     b.push(tmw::Op::BurnRemaining { caller: tmw::CREATOR, funds: vec![] });
     b.push(tmw::Op::Migrate { who: tmw::CREATOR, stored: older() });
